@@ -416,7 +416,7 @@ def r2c_reported_bound(ctx, prog, rule_id='C12.R2c'):
     """CKR_BUFFER_TOO_SMALL tells the caller which length to come back with: the length stored into *pulLen on that exit is the very bound the announced length was found to be
     smaller than (`if (*pulLen < need) { *pulLen = need; return CKR_BUFFER_TOO_SMALL; }`).  A smaller value makes the retry fail again (an insufficient answer), a different one is not the
     length the NULL-pointer query reports."""
-    r = ctx.rule(rule_id, 'the length reported with CKR_BUFFER_TOO_SMALL is the bound the announced length failed against', floor=14, engine='E3 typestate over the failed comparison')
+    r = ctx.rule(rule_id, 'the length reported with CKR_BUFFER_TOO_SMALL is the bound the announced length failed against', floor=10, engine='E3 typestate over the failed comparison')
     seen = set()
     for api, op, g, finishing, sv, opv in work_functions(prog):
         if g['qname'] in seen:
